@@ -96,6 +96,49 @@ theorem collect_closed (g : Graph) (todo : List Str) :
     ∀ n ∈ collect g [] todo, ∀ s ∈ succs g n, s ∈ collect g [] todo :=
   collect_closed_aux g [] todo (fun _ hn => by cases hn)
 
+/-- reachability in the type graph from a list of roots. -/
+inductive Reach (g : Graph) (roots : List Str) : Str → Prop where
+  | root {r : Str} : r ∈ roots → Reach g roots r
+  | step {n s : Str} : Reach g roots n → s ∈ succs g n → Reach g roots s
+
+theorem collect_sound_aux (g : Graph) (roots visited todo : List Str)
+    (hv : ∀ x ∈ visited, Reach g roots x) (ht : ∀ x ∈ todo, Reach g roots x) :
+    ∀ n ∈ collect g visited todo, Reach g roots n := by
+  fun_induction collect g visited todo with
+  | case1 visited => exact hv
+  | case2 visited k rest hk ih =>
+    exact ih hv (fun x hx => ht x (List.mem_cons_of_mem _ hx))
+  | case3 visited k rest hk ih =>
+    apply ih
+    · intro x hx
+      rcases List.mem_append.mp hx with h | h
+      · exact hv x h
+      · rcases List.mem_singleton.mp h with rfl
+        exact ht _ List.mem_cons_self
+    · intro x hx
+      rcases List.mem_append.mp hx with h | h
+      · exact Reach.step (ht k List.mem_cons_self) h
+      · exact ht x (List.mem_cons_of_mem _ h)
+
+/-- Nothing is collected that the roots do not reach. -/
+theorem collect_sound (g : Graph) (todo : List Str) : ∀ n ∈ collect g [] todo, Reach g todo n :=
+  collect_sound_aux g todo [] todo (fun _ h => by cases h) (fun _ h => Reach.root h)
+
+/-- Everything the roots reach is collected. -/
+theorem collect_complete (g : Graph) (todo : List Str) (n : Str) (h : Reach g todo n) : n ∈ collect g [] todo := by
+  induction h with
+  | root hr => exact collect_contains_roots g todo _ hr
+  | step _ hs ih => exact collect_closed g todo _ ih _ hs
+
+/-- The collected SET is exactly the reachable set. -/
+theorem mem_collect_iff (g : Graph) (todo : List Str) (n : Str) : n ∈ collect g [] todo ↔ Reach g todo n :=
+  ⟨collect_sound g todo n, collect_complete g todo n⟩
+
+theorem Reach.of_roots_subset {g : Graph} {a b : List Str} (hab : ∀ x ∈ a, x ∈ b) {n : Str} (h : Reach g a n) : Reach g b n := by
+  induction h with
+  | root hr => exact Reach.root (hab _ hr)
+  | step _ hs ih => exact Reach.step ih hs
+
 /-- Self-recursive message: visited once. -/
 example : collect [("A".toList, ["A".toList])] [] ["A".toList] = ["A".toList] := by
   simp [collect, succs, glookup]
